@@ -1,5 +1,5 @@
 From Coq Require Import Reals List Extraction ExtrOcamlBasic.
 From OSU.Extract Require Import RFloat.
 From OSU.Model Require Import Dispersion.
-Extraction "../build/ex/C07/model.ml" omega guess kinv_batch n_ratio n_exact phase cg
+Extraction "../build/ex/C07/model.ml" omega guess guesses zipstep kinv_batch n_ratio n_exact phase cg
   spec_points spec_wavenumber spec_wavelength spec_wave_speed spec_group_velocity.
